@@ -290,7 +290,8 @@ func c05SignVerify(c *vf.Ctx) {
 			keys[e.ID.String()] = e.Priv
 		}
 		var err error
-		if sh.EP || r.Intn(2) == 0 {
+		withFetcher := sh.EP || r.Intn(2) == 0
+		if withFetcher {
 			err = ad.SignWithExtendedProviders(signer.Priv, fetcherFor(keys))
 		} else {
 			err = ad.Sign(signer.Priv)
@@ -338,6 +339,21 @@ func c05SignVerify(c *vf.Ctx) {
 			c.Guard(sub, i, w, func() {
 				if got, err := b.VerifySignature(); err == nil {
 					c.Fail(sub, i, "mutated-ad-verifies:"+m.name, fmt.Sprintf("returned signer %s", got), w())
+				}
+				// the changed advertisement, signed again with the library (it still carries the signatures made
+				// before the change), verifies like any other it signs
+				b2 := cloneAd(b)
+				var serr error
+				if withFetcher {
+					serr = b2.SignWithExtendedProviders(signer.Priv, fetcherFor(keys))
+				} else {
+					serr = b2.Sign(signer.Priv)
+				}
+				if serr == nil {
+					c.Inc("changed_ads_signed_again")
+					if got, err := b2.VerifySignature(); err != nil || got != signer.ID {
+						c.Fail(sub, i, "signed-again-after-a-change-rejected:"+m.name, fmt.Sprintf("err=%v signer=%s want %s", err, got, signer.ID), w())
+					}
 				}
 			})
 			c.Eval(1)
